@@ -3,7 +3,7 @@
 # binaries once so that later incremental rebuilds are fast.
 set -u
 export GOFLAGS=-mod=mod GOPROXY=off GOTOOLCHAIN=local TZ=UTC CGO_ENABLED=1
-cd /verif || exit 2
+cd "$(dirname "${BASH_SOURCE[0]}")" || exit 2
 ./build.sh plain || exit 2
 if ls mc/shim >/dev/null 2>&1; then ./build.sh shim || exit 2; fi
 echo setup-ok
